@@ -144,6 +144,10 @@ impl Vtx {
         while null_terminators_read != 5 {
             let mut strings_partial_buffer = [0u8; READ_STRING_BUFFER_SIZE];
             let bytes_read = reader.read(&mut strings_partial_buffer)?;
+            if bytes_read == 0 {
+                // End of file before all strings were found
+                break;
+            }
             let mut current_buffer_bytes_count = 0;
             while current_buffer_bytes_count < bytes_read {
                 if let Some(pos) = strings_partial_buffer[current_buffer_bytes_count..]
@@ -193,11 +197,26 @@ impl Vtx {
         let author = strings.pop().unwrap();
         let title = strings.pop().unwrap();
 
-        let mut transposed_frame_data = vec![0u8; decompressed_frames_size as usize];
+        // Size from the header is not trusted: buffer grows only while decoder really
+        // produces the data
+        const DECODE_CHUNK_SIZE: usize = 4096;
+        let decompressed_frames_size = decompressed_frames_size as usize;
+        let mut transposed_frame_data = Vec::new();
         let mut decoder = Lh5Decoder::new(reader);
-        decoder
-            .fill_buffer(&mut transposed_frame_data)
-            .map_err(|_| VtxError::DecompressFailure)?;
+        while transposed_frame_data.len() < decompressed_frames_size {
+            let chunk_size =
+                DECODE_CHUNK_SIZE.min(decompressed_frames_size - transposed_frame_data.len());
+            let mut chunk = [0u8; DECODE_CHUNK_SIZE];
+            // lh5 decoder may panic on malformed stream instead of returning error
+            let decode_result = std::panic::catch_unwind(std::panic::AssertUnwindSafe(|| {
+                decoder.fill_buffer(&mut chunk[..chunk_size])
+            }));
+            match decode_result {
+                Ok(Ok(())) => {}
+                _ => return Err(VtxError::DecompressFailure),
+            }
+            transposed_frame_data.extend_from_slice(&chunk[..chunk_size]);
+        }
 
         // VTX originally stores pre-transposed data, therefore we need to tarnspose it
         let frames_count = transposed_frame_data.len() / AY_REGISTER_COUNT;
